@@ -38,7 +38,7 @@ func (p *Program) Size() int {
 				n += 5
 			}
 			for _, op := range t.Ops {
-				n += 10 + 2*len(op.Pre)
+				n += 10 + 2*len(op.Pre) + 2*len(op.PreLock)
 				if op.After != nil {
 					n++
 				}
@@ -84,6 +84,7 @@ func Minimise(p *Program, still func(*Program) bool, budget int) (*Program, int)
 				for ti := range c.Epochs[ei].Tasks {
 					for oi := range c.Epochs[ei].Tasks[ti].Ops {
 						c.Epochs[ei].Tasks[ti].Ops[oi].Pre = nil
+						c.Epochs[ei].Tasks[ti].Ops[oi].PreLock = nil
 						c.Epochs[ei].Tasks[ti].Ops[oi].After = nil
 					}
 				}
@@ -168,6 +169,11 @@ func Minimise(p *Program, still func(*Program) bool, budget int) (*Program, int)
 						c := cur.Clone()
 						pre := c.Epochs[ei].Tasks[ti].Ops[oi].Pre
 						c.Epochs[ei].Tasks[ti].Ops[oi].Pre = append(pre[:pi], pre[pi+1:]...)
+						try(c)
+					}
+					if len(cur.Epochs[ei].Tasks[ti].Ops[oi].PreLock) > 0 {
+						c := cur.Clone()
+						c.Epochs[ei].Tasks[ti].Ops[oi].PreLock = nil
 						try(c)
 					}
 					if cur.Epochs[ei].Tasks[ti].Ops[oi].After != nil {
